@@ -168,3 +168,22 @@ reg('C18', 'exploration',
     'cp500} x {VBS, 1014}, every table of every file requested through the class or the CSV tool; compressed and expanded must '
     'agree on every column; missing index trailer / unconfigured table must raise MciIpmDataError.',
     'Trusts vmon/ref/param.py (validated against the literal rows in the repository tests), vmon/ref/blocking.py and the csv module.')
+
+reg('C19', 'exploration',
+    'runtime monitor: the four conversion tools run (function and cli_run entry points, real files) on writer-produced inputs; converted records read by the real reader and by the reference decoder, then converted back and compared byte for byte',
+    'All 6 ordered pairs of {latin_1, cp500, cp037} x {vbs,1014}^2 for mci_ipm_encode and mci_ipm_param_encode, both fixed '
+    'directions x {blocked, unblocked} for mideu convert and paramconv, 12 (quick) / 150 (thorough) repetitions with fresh '
+    'message lists (PDS entries, raw carriers, binary DE55, typed elements, all element subsets) and arbitrary-byte parameter '
+    'records: record count, order and values preserved (DE55 byte-identical), output well blocked, and the return conversion '
+    'reproduces the input file byte for byte.',
+    'Trusts vmon/ref/codec.py, vmon/ref/blocking.py; the three codecs are checked to be Latin-1 bijections at run time. For the '
+    'legacy converter PDS data are library-packed (it re-packs PDS with the default configuration).')
+
+reg('C20', 'exploration',
+    'runtime monitor: generated CSV tables pushed through the real mci_csv_to_ipm and mci_ipm_to_csv (function and cli_run entry points); every supplied cell compared with the output cell',
+    '1 200 (quick) / 20 000 (thorough) tables of 1..50 (thorough ..400) rows over every supplied column of the configured output '
+    'list (MTI, 28 data elements, 6 PDS columns): all columns, subsets, PDS only, PDS with other elements, cells with commas, '
+    'quotes, leading/trailing/only spaces, 0 and maximum numbers, dates across the two-digit-year window (plus a class of '
+    'non-canonical date spellings compared after normalisation) x {latin_1, cp500, cp037} x {blocked, unblocked}.',
+    'Trusts the csv module. Derived/output-only columns, DE48 together with PDS columns, and cells with line breaks or control '
+    'characters are outside the statement.')
